@@ -252,7 +252,7 @@ class Tree:
                         walk(c, first, cur_cls)       # the first one is the dependent pattern
                         first = False
                 return
-            if k in ('CXXMethodDecl', 'FunctionDecl') and n.get('name') == name and not in_pattern:
+            if k in ('CXXMethodDecl', 'FunctionDecl', 'CXXDestructorDecl') and n.get('name') == name and not in_pattern:
                 if cls is None or cur_cls == cls or cls in n.get('mangledName', '') or True:
                     b = [c for c in n.get('inner', []) if isinstance(c, dict) and c.get('kind') == 'CompoundStmt']
                     if b and (cls is None or cur_cls == cls or cur_cls is None):
@@ -674,6 +674,20 @@ def gen_revmap(tree):
     return out
 
 
+def gen_namefile(tree):
+    """destructor of StringFileWriter (nl-writer2.hpp): when is the auxiliary file removed"""
+    d, body, rend = tree.body('nl-writer2/src/nl-solver.cc', 'StringFileWriter', '~StringFileWriter')
+    ifs = [c for c in body.get('inner', []) if c.get('kind') == 'IfStmt']
+    if len(ifs) != 1 or len(body.get('inner', [])) != 1:
+        raise TranslateError('~StringFileWriter: body is not a single if: %s' % rend)
+    if S(ifs[0]['inner'][1]) != ['opener_(true)'] or len(ifs[0]['inner']) != 2:
+        raise TranslateError('~StringFileWriter: the guarded statement is not `opener_(true)`: %s' % rend)
+    sem = Sem({'cnt_': ('cnt', 'Int'), 'fTriedOpen_': ('triedOpen', 'Bool')})
+    t, _ = sem.E(ifs[0]['inner'][0], 'Bool')
+    return ('/-- `~StringFileWriter`: condition under which the destructor calls `opener_(true)` (= remove the file) -/\n'
+            'def sfwRemoves (cnt : Int) (triedOpen : Bool) : Bool := %s\n' % t)
+
+
 SKELS = [  # (lean name, source file, dump filter, function name, signature substring or None)
     ('FeedObjGradient', 'nl-writer2/src/nl-solver.cc', 'NLFeeder_Easy', 'FeedObjGradient', None),
     ('FeedObjExpression', 'nl-writer2/src/nl-solver.cc', 'NLFeeder_Easy', 'FeedObjExpression', None),
@@ -704,6 +718,8 @@ SKELS = [  # (lean name, source file, dump filter, function name, signature subs
     ('NLSolver_LoadModel', 'nl-writer2/src/nl-solver.cc', 'NLSolver::LoadModel', 'LoadModel', 'const mp::NLModel &'),
     ('NLSolver_ReadSolution', 'nl-writer2/src/nl-solver.cc', 'NLSolver::ReadSolution', 'ReadSolution', 'mp::NLSolution ()'),
     ('NLSolver_Solve', 'nl-writer2/src/nl-solver.cc', 'NLSolver::Solve', 'Solve', 'const mp::NLModel &'),
+    ('NLSuffix_less', 'nl-writer2/src/nl-solver.cc', 'NLSuffix', 'operator<', None),
+    ('StringFileWriter_dtor', 'nl-writer2/src/nl-solver.cc', 'StringFileWriter', '~StringFileWriter', None),
     ('NLW2_SetWarmstart_C', 'nl-writer2/src/nl-model-c.cc', 'NLW2_SetWarmstart_C', 'NLW2_SetWarmstart_C', None),
     ('NLW2_SetDualWarmstart_C', 'nl-writer2/src/nl-model-c.cc', 'NLW2_SetDualWarmstart_C', 'NLW2_SetDualWarmstart_C', None),
 ]
@@ -718,7 +734,7 @@ def main(repo, out, work):
          'namespace MpVerif.Gen.C08Easy',
          'open MpVerif.C08',
          '',
-         gen_permute_step(tree), gen_objvalue(tree), gen_solhandler(tree), gen_walks(tree), gen_revmap(tree)]
+         gen_permute_step(tree), gen_objvalue(tree), gen_solhandler(tree), gen_walks(tree), gen_revmap(tree), gen_namefile(tree)]
     names = []
     for lean, src, flt, fn, sig in SKELS:
         _, _, rend = tree.body(src, flt, fn, None, sig)
@@ -731,7 +747,7 @@ def main(repo, out, work):
     old = open(out).read() if os.path.exists(out) else None
     if old != text:
         open(out, 'w').write(text)
-    print('generated 36 semantic defs, %d skeletons -> %s%s' % (len(names), out, '' if old != text else ' (unchanged)'))
+    print('generated 37 semantic defs, %d skeletons -> %s%s' % (len(names), out, '' if old != text else ' (unchanged)'))
 
 
 if __name__ == '__main__':
